@@ -27,6 +27,7 @@ fn main() {
         "C15" => ptfs_eng::c15(&args),
         "C16" => ptfs_eng::c16(&args),
         "C18" => ptfs_eng::c18(&args),
+        "C06" => fbrv::engines::escape_eng::c06(&args),
         "C07" => vfs_eng::run(&args, "C07"),
         "C14" => vfs_eng::run(&args, "C14"),
         "C19" => vfs_eng::c19(&args),
